@@ -32,6 +32,18 @@ def parseObj (t : String) : Option Obj :=
     | _, _, _, _, _, _, _, _, _, _ => none
   | _ => none
 
+/-- `vg|vs/<name>/<class>/<parent index or ->` -/
+def parseNode (t : String) : Option VNode :=
+  match t.splitOn "/" with
+  | [k, n, c, p] =>
+    match hexStr n, hexStr c with
+    | some name, some cls =>
+      if k != "vg" && k != "vs" then none
+      else if p == "-" then some { isVg := k == "vg", name := name, cls := cls, parent := none }
+      else p.toNat?.map fun i => { isVg := k == "vg", name := name, cls := cls, parent := some i }
+    | _, _ => none
+  | _ => none
+
 def showLens (l : List Nat) (on : Bool) : String := if on then showNatList l else "-"
 
 def showOptions (o : Options) : String :=
@@ -108,6 +120,15 @@ def stepRepack (args : List String) : String :=
         | .fail => "fail"
       | _, _ => "bad-op"
     | _ => "bad-op"
+  | ["reserved", h] =>
+    match hexStr h with
+    | some c => if isReserved c then "1" else "0"
+    | none => "bad-op"
+  | "keep" :: n :: rest =>
+    match n.toNat?, rest.mapM parseNode with
+    | some k, some ns => if k != ns.length then "bad-op" else
+      if ns.isEmpty then "-" else String.join ((keptFlags ns).map fun b => if b then "1" else "0")
+    | _, _ => "bad-op"
   | _ => "bad-op"
 
 end H4.Driver
